@@ -9,7 +9,7 @@ for d in sorted(glob.glob('/verif/seeded/*/')):
     ran=m.get('what_i_ran',[])
     own=[r for r in ran if r['command'].split()[1]==m['property_broken']]
     others=[r for r in ran if r['command'].split()[1]!=m['property_broken']]
-    def cell(r): return ('caught: `%s`'%r['violation_key'][:90]) if r['exit']==1 else ('not caught (exit %d)'%r['exit'])
+    def cell(r): return ('caught: `%s`'%r['violation_key'][:90].replace('|','\\|')) if r['exit']==1 else ('not caught (exit %d)'%r['exit'])
     what=m.get('what_changed','').split('. ')[0][:150].replace('|','/')
     rows.append('| %s | %s | %s | %s |'%(m['seed'],what,'; '.join(cell(r) for r in own) or m.get('note','—'),'; '.join('%s %s'%(r['command'].split()[1],cell(r)) for r in others) or ''))
 print('| seeded change | what it does (first sentence of its author\'s summary) | own property\'s quick check | other checks tried |')
